@@ -22,6 +22,7 @@ func main() {
 	repo := flag.String("repo", "/repo", "repository to analyse")
 	verif := flag.String("verif", "", "verif directory (default: directory above the binary)")
 	genAnchors := flag.Bool("gen-anchors", false, "write anchors.json (the reference table used to follow pure renames) from the current tree")
+	exploreLocks := flag.Bool("explore-locks", false, "discovery aid: print the lock discipline observed per struct field")
 	flag.Parse()
 	if t := os.Getenv("VERIF_TIER"); t == "quick" || t == "thorough" {
 		*tier = t
@@ -63,6 +64,10 @@ func main() {
 		return
 	}
 	prog, err := prepare(*repo, *verif)
+	if err == nil && *exploreLocks {
+		props.ExploreLocks(prog)
+		return
+	}
 	if err == nil {
 		for _, n := range prog.Notes {
 			fmt.Println("note:", n)
